@@ -259,7 +259,7 @@ func (s *Star) SQL() string {
 }
 
 func (s *DotStar) SQL() string {
-	return s.Expr.SQL() + ".*" + sqlOpt(" ", s.Except, "") + sqlOpt(" ", s.Replace, "")
+	return dotOperand(s.Expr.SQL(), s.Expr) + ".*" + sqlOpt(" ", s.Except, "") + sqlOpt(" ", s.Replace, "")
 }
 
 func (a *Alias) SQL() string {
@@ -457,7 +457,16 @@ func (b *BetweenExpr) SQL() string {
 
 func (s *SelectorExpr) SQL() string {
 	p := exprPrec(s)
-	return paren(p, s.Expr) + "." + s.Ident.SQL()
+	return dotOperand(paren(p, s.Expr), s.Expr) + "." + s.Ident.SQL()
+}
+
+// dotOperand separates a decimal integer literal from a following ".":
+// "1.a" would lex as the float "1." glued to an identifier.
+func dotOperand(sql string, e Expr) string {
+	if lit, ok := e.(*IntLiteral); ok && lit.Base == 10 {
+		return sql + " "
+	}
+	return sql
 }
 
 func (i *IndexExpr) SQL() string {
